@@ -1,0 +1,42 @@
+//go:build verif
+
+package otto
+
+// Verification hooks (build tag verif) for interrupt and unwinding checks.
+// They add code only and change no behaviour unless VerifStepHook is set.
+
+// VerifStepHook, when non-nil, is called at every interrupt polling point of the
+// evaluator (statement entry, expression entry, empty-bodied for loop) with the
+// runtime's current scope depth and pending-label count. A harness uses it to
+// count evaluation steps and to panic at a chosen step.
+var VerifStepHook func(depth, labels int)
+
+func verifStep(rt *runtime) {
+	if VerifStepHook != nil {
+		depth := -1
+		if rt.scope != nil {
+			depth = rt.scope.depth
+		}
+		VerifStepHook(depth, len(rt.labels))
+	}
+}
+
+// VerifScopeDepth reports the scope depth at rest: -1 when no scope is active.
+func VerifScopeDepth(vm *Otto) int {
+	if vm.runtime.scope == nil {
+		return -1
+	}
+	return vm.runtime.scope.depth
+}
+
+// VerifScopeChainLen counts the active scopes (execution contexts).
+func VerifScopeChainLen(vm *Otto) int {
+	n := 0
+	for s := vm.runtime.scope; s != nil; s = s.outer {
+		n++
+	}
+	return n
+}
+
+// VerifLabelCount reports the number of pending labels.
+func VerifLabelCount(vm *Otto) int { return len(vm.runtime.labels) }
